@@ -37,6 +37,7 @@ class Check(object):
         self.rng = random.Random(seed)
         self.t0 = time.time()
         self.scratch = tlc.make_scratch(pid)
+        shutil.rmtree(os.path.join(VERIF, "replays", pid), ignore_errors=True)   # replay files belong to one run
         self.findings = [f for f in load_findings() if f.get("property") == pid and f.get("status") == "known"]
         self.violations = []      # unlisted
         self._vsigs = {}
